@@ -532,9 +532,9 @@ def for_property(prop):
 
         def plan(tier, seed):
             q = tier == "quick"
-            items = [("one", i, 25 if q else 60) for i in range(48 if q else 700)]
-            items += [("two", i, 12 if q else 30) for i in range(24 if q else 300)]
-            items += [("twoh", i, 12 if q else 30) for i in range(16 if q else 200)]
+            items = [("one", i, 25 if q else 60) for i in range(48 if q else 2800)]
+            items += [("two", i, 12 if q else 30) for i in range(24 if q else 1200)]
+            items += [("twoh", i, 12 if q else 30) for i in range(16 if q else 800)]
             items += [("sizes", i, 40 if q else 250) for i in range(16 if q else 32)]
             return items
         m.plan = plan
@@ -560,8 +560,8 @@ def for_property(prop):
 
         def plan(tier, seed):
             q = tier == "quick"
-            items = [("rand", i, 20 if q else 60) for i in range(64 if q else 1200)]
-            items += [("sys", i, 60 if q else 300) for i in range(32 if q else 600)]
+            items = [("rand", i, 20 if q else 60) for i in range(64 if q else 4800)]
+            items += [("sys", i, 60 if q else 300) for i in range(32 if q else 2400)]
             items += [("enum", i, 0) for i in range(4)]
             return items
         m.plan = plan
